@@ -7,6 +7,11 @@ from checkcfg import PROPS
 BASELINE = json.load(open('/root/.vp/BASELINE.json'))['cmd'] if os.path.exists('/root/.vp/BASELINE.json') else ''
 
 TEXT = {
+ "C08": dict(
+   technique="stateful property-based testing (rapid state machine) with generated removal moments and schedules; oracle = raw database residue scan + ledger/lifecycle model for survivors + re-import convergence",
+   text="2..3 wallets share a generated history (shared transactions, pending transactions, staking/binding deposits). At a drawn moment one wallet is removed (wrong passphrases refused first; removal of a still-importing wallet must be refused with the unready error); the real worker's removal steps are served one at a time, interleaved with new blocks, reorganisations, and a close/reopen of the instance between steps. Afterwards: the wallet is not listed and cannot be selected; the closed LevelDB directory is iterated raw and neither its id, nor any of its address strings (standard and staking form), nor any of its 32-byte script hashes may occur in any key or value (except inside pending transactions a survivor still needs); every survivor's ledger (C01 audit) and mined deposit histories equal the chain model after every step, and it can still build and sign a transaction; importing the same mnemonic again succeeds and converges to the model. Two defects found this way were repaired (fix: be78ab7, 0c88703). Exploration: sampled schedules.",
+   note="Removal of more than 20000 credits (a second phase-2 step forced by volume) is not generated; multi-step removal is reached through transactions at different heights instead. The pending-spent flag of a survivor's coin whose only pending spender paid the removed wallet is not asserted.",
+   ref="DESIGN.md §3 C08"),
  "C07": dict(
    technique="property-based testing (rapid) with generated schedules of rescan sections vs chain changes; oracle = differential against the live-watching original wallet + independent ledger/lifecycle model",
    text="Instance A watches wallet W live through a generated history (addresses with gaps, standard / staking / binding payments and spends, reorgs, lagging notifications). At a drawn moment instance B (fresh database, same simulated node, caught up) imports W from the mnemonic with an index hint 0..issued, or from A's exported keystore. From then on the generator interleaves B's rescan sections (the real worker goroutine, one suspended section per step) with new blocks, reorganisations below/above the rescan cursor, payments to the restored addresses and notifications delivered to A and B in any order; thorough also inserts > 1000 quiet blocks so the rescan spans several batches. Until the rescan finishes B must list W as importing and refuse to select it (unready error); at quiescence B's unspent outputs, balances, addresses-with-history and mined staking/binding records must equal A's (string-wise differential of the full listing) and both must equal the chain model. Exploration: sampled schedules.",
